@@ -147,6 +147,7 @@ type world struct {
 	// flushedSinceOpen: some history flushed metadata since the engine was (re)opened
 	flushedSinceOpen bool
 	healReopens      int64
+	timeouts         int // queries that did not complete within vbox.QueryTimeout
 }
 
 const shardID = models.ShardID(1)
@@ -158,6 +159,7 @@ func openWorld(dir, prefix string) *world {
 		vevid.Fatal("open engine: %v", err)
 	}
 	vbox.DupWait = 0 // one-response-per-request is not a clause of this property
+	vbox.QueryTimeout = 10 * time.Second
 	day := time.Now().UTC().Truncate(24*time.Hour).UnixMilli() - 24*3600*1000
 	return &world{box: b, base: day + 10*3600*1000, prefix: prefix}
 }
